@@ -96,7 +96,7 @@ Proof.
   - destruct Hc as [[? ?] ?]; congruence.
   - destruct Hc as [[? ?] ?]; congruence.
   - destruct Hc; congruence.
-  - destruct Hc; congruence.
+  - destruct Hc as [[? ?] ?]; congruence.
 Qed.
 (* a pusher between its CAS and its ready store works on an allocated block *)
 Lemma pw_live s p : Inv s -> pw_common B s p (P s p) -> pp (P s p) <> PIdle -> live s (gk (P s p)).
